@@ -8,9 +8,6 @@ from sa import cli
 props = cli.load_rules()
 
 NOT_APPLICABLE = {
-    'C04': 'integer arithmetic over (offset, element size, count, reply budget): tiling, ceil-rounding and the 0x06/0x00 boundary '
-           'are numerical facts about reply_elements; no source-shape clause is both necessary and non-brittle - needs enumeration '
-           'or a solver (another technique family).  DESIGN.md section 6.',
     'C11': 'quantifies over all regular expressions x strings; the object to examine is the OUTPUT of state.from_regex (translation '
            'validation of an algorithm), which only exists by running it - not decidable from its source shape.  DESIGN.md section 6.',
 }
